@@ -143,6 +143,76 @@ class ClassInfo:
         return "ABC" in self.external_bases
 
 
+def _stores(st: ast.AST) -> set[str]:
+    out = set()
+    for x in ast.walk(st):
+        if isinstance(x, ast.Name) and isinstance(x.ctx, (ast.Store, ast.Del)):
+            out.add(x.id)
+        elif isinstance(x, (ast.FunctionDef, ast.ClassDef)):
+            out.add(x.name)
+    return out
+
+
+def canonicalize(tree: ast.Module) -> int:
+    """Normal form shared by all rules: a boolean held in a local only to be tested once (`t = <test>` ... `if t:`) is put back
+    into the `if` (the rules read conditions where they are tested). Only done when the local is stored once, loaded once - in the
+    test of a later `if` of the same block - and nothing between the two statements rebinds a name the expression reads.
+    Positions of the surviving nodes are unchanged. Returns the number of temporaries inlined."""
+    done = 0
+    for fn in [n for n in ast.walk(tree) if isinstance(n, (ast.FunctionDef, ast.AsyncFunctionDef))]:
+        loads: dict[str, int] = {}
+        stores: dict[str, int] = {}
+        for x in ast.walk(fn):
+            if isinstance(x, ast.Name):
+                d = loads if isinstance(x.ctx, ast.Load) else stores
+                d[x.id] = d.get(x.id, 0) + 1
+        cands = {n for n, c in stores.items() if c == 1 and loads.get(n, 0) == 1}
+        blocks = []
+        for x in ast.walk(fn):
+            for f in ("body", "orelse", "finalbody"):
+                sub = getattr(x, f, None)
+                if isinstance(sub, list) and sub and isinstance(sub[0], ast.stmt):
+                    blocks.append(sub)
+        for blk in blocks:
+            i = 0
+            while i < len(blk):
+                st = blk[i]
+                if isinstance(st, ast.Assign) and len(st.targets) == 1 and isinstance(st.targets[0], ast.Name) and i + 1 < len(blk) \
+                        and isinstance(blk[i + 1], ast.Return) and isinstance(blk[i + 1].value, ast.Name) and blk[i + 1].value.id == st.targets[0].id:
+                    # `t = E` directly followed by `return t` (t is dead afterwards)
+                    blk[i + 1].value = st.value
+                    del blk[i]
+                    done += 1
+                    continue
+                if isinstance(st, ast.Assign) and len(st.targets) == 1 and isinstance(st.targets[0], ast.Name) and st.targets[0].id in cands \
+                        and isinstance(st.value, (ast.Call, ast.Compare, ast.BoolOp, ast.UnaryOp)):
+                    name = st.targets[0].id
+                    reads = {x.id for x in ast.walk(st.value) if isinstance(x, ast.Name)}
+                    j = i + 1
+                    ok = False
+                    while j < len(blk):
+                        nxt = blk[j]
+                        if isinstance(nxt, ast.If) and any(isinstance(x, ast.Name) and x.id == name for x in ast.walk(nxt.test)):
+                            ok = True
+                            break
+                        if _stores(nxt) & reads or any(isinstance(x, ast.Name) and x.id == name for x in ast.walk(nxt)):
+                            break
+                        j += 1
+                    if ok:
+                        target = blk[j]
+
+                        class Sub(ast.NodeTransformer):
+                            def visit_Name(self, n: ast.Name):
+                                return st.value if n.id == name and isinstance(n.ctx, ast.Load) else n
+
+                        target.test = Sub().visit(target.test)
+                        del blk[i]
+                        done += 1
+                        continue
+                i += 1
+    return done
+
+
 def _decorator_names(node: ast.FunctionDef) -> tuple[str, ...]:
     out = []
     for d in node.decorator_list:
@@ -204,6 +274,7 @@ class Program:
                 tree = ast.parse(src, filename=rel)
             except SyntaxError as e:
                 raise AnalysisError(f"{rel} does not parse: {e}") from e
+            canonicalize(tree)
             name = rel[:-3].replace(os.sep, ".")
             if name.endswith(".__init__"):
                 name = name[: -len(".__init__")]
@@ -358,6 +429,40 @@ class Program:
         if not hits:
             raise AnalysisError(f"public anchor: function {qual_or_short} not found in the package")
         raise AnalysisError(f"function name {qual_or_short} is ambiguous")
+
+    def delegate_of(self, fn: FunctionInfo) -> FunctionInfo | None:
+        """The function that fn hands its parameters to unchanged, when fn's body is nothing but `return target(<its parameters>)`."""
+        body = [st for st in fn.node.body if not (isinstance(st, ast.Expr) and isinstance(getattr(st, "value", None), ast.Constant))]
+        if len(body) != 1 or not isinstance(body[0], ast.Return) or not isinstance(body[0].value, ast.Call):
+            return None
+        call = body[0].value
+        params = [p.arg for p in fn.params()]
+        tgt = None
+        if isinstance(call.func, ast.Attribute) and isinstance(call.func.value, ast.Name) and fn.cls is not None and params \
+                and call.func.value.id == params[0] and not fn.is_staticmethod:
+            tgt = self.lookup(fn.cls, call.func.attr)
+            params = params[1:]
+        elif isinstance(call.func, ast.Name):
+            q = self.resolve_name(fn.module, call.func.id)
+            tgt = self.functions.get(q) if q else None
+        if tgt is None or tgt is fn or call.keywords and any(k.arg is None for k in call.keywords):
+            return None
+        given = [a.id if isinstance(a, ast.Name) else None for a in call.args] + [k.value.id if isinstance(k.value, ast.Name) and k.arg == k.value.id else None
+                                                                                   for k in call.keywords]
+        if given != params:
+            return None
+        return tgt
+
+    def body_of(self, fn: FunctionInfo) -> FunctionInfo:
+        """fn itself, or the implementation it delegates to unchanged (followed up to three steps): rules anchored on a public
+        name read the code that actually runs."""
+        cur = fn
+        for _ in range(3):
+            nxt = self.delegate_of(cur)
+            if nxt is None:
+                break
+            cur = nxt
+        return cur
 
     def find_func(self, qual_or_short: str) -> FunctionInfo | None:
         try:
